@@ -213,8 +213,21 @@ pub open spec fn accept_justified(c: Constraint, ctx: Context) -> bool {
 
 // unify_link: the dispatcher of unification.  Termination is NOT proved (the recursion is on the queue contents
 // through callees outside reach): #[verifier::exec_allows_no_decreases_clause]; stated as an assumption.
+/// C05 / C06 "given the unifier processes every logged constraint": the constraint at the FRONT of the queue is not skipped — if
+/// it is a (not trivially equal) Type-vs-Type constraint, the whole unification can only succeed if unify_type accepted it,
+/// i.e. (unify_type's contract) if its supertype test holds or a side is Any
+pub open spec fn front_decided(q: Constraints, ctx: Context, r: Unified<Finished>) -> bool {
+    q.constraints@.len() >= 1 ==> {
+        let c = q.constraints@[0];
+        match (c.parent.expect, c.child.expect) {
+            (Expect::Type { name: l }, Expect::Type { name: rr }) => c.parent.expect != c.child.expect ==> (r is Ok ==> accept_justified(c, ctx)),
+            _ => true,
+        }
+    }
+}
+
 #[verifier::exec_allows_no_decreases_clause]
-//@@ FN src/check/constrain/unify/link.rs | free | unify_link | props=C19,C03
+//@@ FN src/check/constrain/unify/link.rs | free | unify_link | props=C19,C03,C05,C06
 //@@ OUTLINE
 //@@< unify_link(constraints, finished, ctx, total + 1)
 //@@> unify_link(constraints, finished, ctx, verif_assumed_succ(total))
@@ -226,6 +239,8 @@ pub open spec fn accept_justified(c: Constraint, ctx: Context) -> bool {
 //@@> (left, right) if verif_outline_expect_eq(left, right) =>
     ensures
         r is Err ==> r->Err_0@.len() >= 1,                                       //# rejection_carries_a_diagnostic [C19]
+        front_decided(*old(constraints), *ctx, r),                               //# the_front_constraint_is_decided_not_skipped [C05,C06,C20]
+        old(constraints).constraints@.len() == 0 ==> r == Ok::<Finished, Vec<TypeErr>>(*old(finished)), //# an_empty_queue_finishes_with_what_was_found [C05]
 //@@ END
 
 /// C03: along any sequence of re-insertions of one constraint, at most one succeeds — the second attempt sees
